@@ -1,5 +1,7 @@
 import PwVerif.Proofs.Cache
 import PwVerif.Proofs.CacheTree
+import PwVerif.Proofs.CacheForest
+import PwVerif.Proofs.CacheFetch
 /-!
 # C05 — Caching is transparent: a run served from cache equals a real run
 
@@ -297,7 +299,107 @@ example : (CacheTree.runOps natSem KCfg.proposed 5 true { vals := [], kids := ki
        some [(1, 21014), (4, 33015)], none, some [(1, 29014), (4, 41015)]] := by decide
 example : ClsAgree kidsA kidsC ∧ key KCfg.current kidsA = key KCfg.current kidsA := ⟨by simp [ClsAgree, kidsA, kidsC], rfl⟩
 
+/-- the key as /repo has it now, at history level -/
+theorem C05_tree_transparent_now : TreeTransparent KCfg.now := C05_tree_transparent
+
 end Tree
+
+/-! ## the whole tree of caches (`PwVerif.CacheForest`): every function node and every composite with its own entry -/
+section Forest
+open PwVerif.CacheTree (KCfg Sem T Src)
+open PwVerif.CacheForest
+
+/-- one child run on demand, all caches below it consulted: the structure stays, every entry stays valid, the value
+returned and stored is what the cache-free twin computes (for every fuel of either), no other stored output is spoilt -/
+theorem C05_forest_child_run {ρ : Type} [DecidableEq ρ] (S : Sem ρ) (fuel : Nat) (vals : List ρ) :
+    RkSpec S vals (fun k s => runKid S KCfg.now fuel vals k s) :=
+  runKid_spec S fuel vals
+
+/-- TRANSPARENCY FOR THE WHOLE TREE OF CACHES: from any valid state, along every history of edits that fabricate no
+entry (every edit of the harness, at any depth: see below) and runs — outer misses over inner hits included — after
+every run every output agrees with the cache-free evaluation of the graph as it then is -/
+theorem C05_forest_transparent {ρ : Type} [DecidableEq ρ] (S : Sem ρ) (fuel : Nat) (ops : List (PwVerif.CacheForest.Op ρ))
+    (r r' : Root ρ) (seen : List (Root ρ)) (hv : ValidRoot S r) (hok : ∀ o ∈ ops, OpOk S o)
+    (h : runOpsC S KCfg.now fuel r ops = some (r', seen)) :
+    ValidRoot S r' ∧ ∀ x ∈ seen, AgreeRoot S x :=
+  runOpsC_spec S fuel ops r r' seen hv hok h
+
+/-- an edit of a body at ANY depth below the root's children (set/rewire an input, add, remove, replace a child,
+with or without dropping that composite's entry) is admissible, provided it fabricates no entry there -/
+theorem C05_forest_edit_at_depth {ρ : Type} (S : Sem ρ) (clear : Bool) (g : Kids ρ → Kids ρ)
+    (hg : ∀ kids, ValidKids S kids → ValidKids S (g kids)) (l : Nat) (p : List Nat) :
+    Conservative S (atPathC clear g (l :: p)) :=
+  conservative_atPathC S clear g hg l p
+
+/-- … which the harness's edits do not: assignment / rewiring, a fresh child, a removal, a replacement -/
+theorem C05_forest_edits_harmless {ρ : Type} (S : Sem ρ) (kids : Kids ρ) (hv : ValidKids S kids) (l i cls : Nat)
+    (s : Src) (ins : List Src) :
+    ValidKids S (mapKidC l (TC.setIn i s) kids) ∧ ValidKids S (kids ++ [(l, freshLeaf S cls ins)]) ∧
+    ValidKids S (removeKidC l kids) ∧ ValidKids S (removeKidC l kids ++ [(l, freshLeaf S cls ins)]) :=
+  ⟨harmless_setIn S l i s kids hv, harmless_add S l cls ins kids hv, valid_removeKidC S l kids hv,
+   harmless_replace S l cls ins kids hv⟩
+
+theorem C05_forest_setin_root {ρ : Type} (S : Sem ρ) (l i : Nat) (s : Src) : Conservative S (mapKidC l (TC.setIn i s)) :=
+  conservative_setIn S l i s
+
+/-! non-vacuity: workflow → macro → two function nodes, nothing cached yet (a valid state); run, run (root hit),
+set the free input of grandchild 3 (root miss, macro miss, grandchild 2 answers from its own cache), run -/
+def forestA : Root Nat :=
+  { kids := [(1, .comp 3 [.val 7] [(2, freshLeaf natSem 10 [.link 0]), (3, freshLeaf natSem 11 [.conn 2, .val 5])] 0 none),
+             (4, freshLeaf natSem 12 [.conn 1])], cache := none }
+example : ValidRoot natSem forestA := by
+  refine ⟨?_, by simp [forestA]⟩
+  simp [forestA, ValidKids, ValidPair, ValidT, freshLeaf]
+def forestOps : List (PwVerif.CacheForest.Op Nat) :=
+  [.run, .run, .edit (atPathC false (mapKidC 3 (TC.setIn 1 (.val 6))) [1]), .run]
+example : (runOpsC natSem KCfg.now 8 forestA forestOps).map (fun p => p.2.map Root.outs)
+    = some [[(1, 21014), (4, 33015)], [(1, 21014), (4, 33015)], [(1, 21015), (4, 33016)]] := by decide
+example : ∀ o ∈ forestOps, OpOk natSem o := by
+  intro o ho
+  simp only [forestOps, List.mem_cons, List.mem_nil_iff, or_false] at ho
+  rcases ho with rfl | rfl | rfl | rfl
+  · trivial
+  · trivial
+  · exact conservative_atPathC natSem false _ (fun k hk => harmless_setIn natSem 3 1 (.val 6) k hk) 1 []
+  · trivial
+
+end Forest
+
+/-! ## a composite hit and the values held by connected inputs (`PwVerif.CacheFetch`, finding KF-C05-7) -/
+section Fetch
+open PwVerif.CacheFetch
+
+/-- with the repair (a composite that answers from its cache makes its children fetch): cached composite and cache-free
+twin stay in the SAME state, channel values included, for every history of assignments to any child input (connected or
+not), disconnections and runs -/
+theorem C05_fetch_transparent {ρ : Type} [DecidableEq ρ] (F : Nat → List ρ → ρ) (nd : ρ) (body : Body ρ)
+    (ops : List (PwVerif.CacheFetch.Op ρ)) :
+    (PwVerif.CacheFetch.runOps F nd true true { body := body, cache := none } ops).2 =
+      (PwVerif.CacheFetch.runOps F nd true false { body := body, cache := none } ops).2 ∧
+    (PwVerif.CacheFetch.runOps F nd true true { body := body, cache := none } ops).1.body =
+      (PwVerif.CacheFetch.runOps F nd true false { body := body, cache := none } ops).1.body := by
+  obtain ⟨h1, h2⟩ := PwVerif.CacheFetch.runOps_sim F nd ops { body := body, cache := none } { body := body, cache := none }
+    ⟨rfl, by simp⟩
+  exact ⟨h1, h2.body⟩
+
+def fetchF : Nat → List Nat → Nat := fun c args => 1000 * c + args.foldl (· + ·) 0 + 1
+/-- n0, n1(a = n0), n2(a = n1, b = n0) -/
+def fetchBody : Body Nat :=
+  [{ label := 0, cls := 1, ins := [.free 2], out := 0 }, { label := 1, cls := 2, ins := [.conn 0 0], out := 0 },
+   { label := 2, cls := 3, ins := [.conn 1 0, .conn 0 0], out := 0 }]
+def fetchOps : List (PwVerif.CacheFetch.Op Nat) := [.run, .assign 1 0 9, .run, .disconnect 0, .run]
+
+/-- /repo as it is (no re-fetch on a hit): run; assign 9 to the CONNECTED input of n1; run (hit: the 9 stays); remove n0;
+run ⇒ the cached composite computes n1 from 9, the twin from n0's last output (replayed on /repo, KF-C05-7) -/
+theorem C05_fetch_current_witness :
+    (PwVerif.CacheFetch.runOps fetchF 0 false true { body := fetchBody, cache := none } fetchOps).2 ≠
+    (PwVerif.CacheFetch.runOps fetchF 0 false false { body := fetchBody, cache := none } fetchOps).2 := by
+  decide
+
+example : (PwVerif.CacheFetch.runOps fetchF 0 true true { body := fetchBody, cache := none } fetchOps).2
+    = (PwVerif.CacheFetch.runOps fetchF 0 true false { body := fetchBody, cache := none } fetchOps).2 := by decide
+
+end Fetch
 end PwVerif.C05
 
 #print axioms PwVerif.C05.C05_transparent
@@ -324,3 +426,11 @@ end PwVerif.C05
 #print axioms PwVerif.C05.C05_key_current_witness
 #print axioms PwVerif.C05.C05_tree_current_not_transparent
 #print axioms PwVerif.C05.C05_key_shallow_witness
+#print axioms PwVerif.C05.C05_tree_transparent_now
+#print axioms PwVerif.C05.C05_forest_child_run
+#print axioms PwVerif.C05.C05_forest_transparent
+#print axioms PwVerif.C05.C05_forest_edit_at_depth
+#print axioms PwVerif.C05.C05_forest_edits_harmless
+#print axioms PwVerif.C05.C05_forest_setin_root
+#print axioms PwVerif.C05.C05_fetch_transparent
+#print axioms PwVerif.C05.C05_fetch_current_witness
